@@ -328,7 +328,7 @@ impl Prop for Cong {
         vec![
             "terms are bounded to the alphabets listed in bound_completed (at most 4 free slots, depth at most 3)".into(),
             "the oracle is exact for pool size >= 3*m (DESIGN §3.1)".into(),
-            "executions that panic are counted as aborted here and owned by C08".into(),
+            "executions that panic are reported as a no-answer failure (also reported by C08 where its exploration reaches it)".into(),
         ]
     }
     fn describe(&self, tier: Tier, _cfg: &str, seg: usize, idx: u64) -> Value {
